@@ -506,24 +506,24 @@ Proof.
   assert (H : auth_state s) by (apply jump_until_ind; [apply auth_jump|exact H0]).
   destruct ((v_r (k_vot s) =? cp_round cp) && (v_h (k_vot s) =? hd_height hd)) eqn:Hpos; cbn [negb]; [|discriminate].
   apply andb_true_iff in Hpos as [Hr Hh]. apply N.eqb_eq in Hr, Hh.
-  assert (Hsame : forall r0, Ok (s, r0) = Ok (s', res) -> auth_state s') by (intros r0 E; inversion E; subst; exact H).
+  assert (Hsame : forall r0, Ok (s0, r0) = Ok (s', res) -> auth_state s') by (intros r0 E; inversion E; subst; exact H0).
   destruct (negb (hd_ok hd)); [apply Hsame|].
   destruct (negb (hd_height hd =? k_init_h s) && _); [apply Hsame|].
   destruct (valset_equal (hd_vals hd) (v_vals (k_vot s)) && vs_ok (hd_vals hd)) eqn:Hveq; cbn [negb]; [|apply Hsame].
   apply andb_true_iff in Hveq as [Hveq _]. destruct (valset_equal_keys _ _ Hveq) as [Hkeys _].
   destruct (negb (vs_ok (hd_next hd))); [apply Hsame|].
-  destruct (fold_left _ (cp_proofs cp) ([], true)) as [temp allv] eqn:Hf.
+  destruct (fold_left _ (signed_entries (cp_proofs cp)) ([], true)) as [temp allv] eqn:Hf.
   assert (Htemp : auth_pmap (vs_keys (v_vals (k_vot s))) KPrecommit (v_h (k_vot s)) (v_r (k_vot s)) temp).
   { rewrite Hr, Hh, <- Hkeys. eapply replay_temp_auth; [| |exact Hf].
     - destruct H as (_&[_ Hvpc]&_). rewrite Hkeys, <- Hr, <- Hh. exact Hvpc.
     - apply auth_pmap_nil. }
   destruct (negb allv); [apply Hsame|].
+  destruct (pm_get temp (hd_hash hd)); [|apply Hsame].
+  unfold bind at 1. destruct (byz_majority _); [|discriminate].
+  destruct (_ <? _); [apply Hsame|].
   fold (replay_insert s hd (cp_round cp)).
   unfold bind at 1. destruct (replay_insert s hd (cp_round cp)) as [s1|] eqn:Hins; [|discriminate].
   destruct (auth_replay_insert _ _ _ _ H Hins) as (H1&E1&E2&E3&E4).
-  destruct (pm_get temp (hd_hash hd)); [|intros E; inversion E; subst; exact H1].
-  unfold bind at 1. destruct (byz_majority _); [|discriminate].
-  destruct (_ <? _); [intros E; inversion E; subst; exact H1|].
   unfold bind. destruct (check_voting_precommit_shift _) as [s3|] eqn:Hc; [|discriminate].
   intros E; inversion E; subst.
   eapply auth_check_voting_precommit_shift; [|exact Hc].
